@@ -94,6 +94,9 @@ class Drv:
         tr["ev"] = stages
         # --- the pipeline itself ---
         pe = {"k": "pipeline", "exc": "", "rethex": "", "stephex": hx(int(zone2), e2, n2, float(hstep)), "htout": [0], "vout": [],
+              "step": {"zone": int(zone2), "e": E_(e2), "n": E_(n2), "h": E_(float(hstep))}, "ret": {"zone": 0, "e": [0], "n": [0], "h": [0]},
+              "vstep": [] if vl is None else [[E_(float(np.asarray(vl, dtype=float)[i, j])) for j in range(3)] for i in range(3)]
+              if np.asarray(vl).shape == (3, 3) else [],
               "vcv33": True, "vrethex": "", "vstephex": ahex(vl) if vl is not None else "",
               "vin": [] if vin is None else [[E_(float(np.diagflat(vin)[i, j] if vin.shape == (3, 1) else vin[i, j])) for j in range(3)] for i in range(3)],
               "pos1": [E_(lat), E_(lon)], "pos2": [E_(lat2), E_(lon2)], "xyz": [E_(x), E_(y), E_(z)], "p14": p14,
@@ -103,6 +106,7 @@ class Drv:
             vpass = None if vin is None else vin.copy()
             zr, er, nr, hr, vr = fwd(*args, vcv=vpass) if vin is not None else fwd(*args)
             pe["rethex"] = hx(int(zr), er, nr, float(hr))
+            pe["ret"] = {"zone": int(zr), "e": E_(er), "n": E_(nr), "h": E_(float(hr))}
             pe["htout"] = E_(hr)
             if vr is not None:
                 vr = np.asarray(vr, dtype=float)
@@ -194,7 +198,7 @@ def run(ctx):
                 "2 m of a zone boundary, x both directions x height absent / given (-100..3000 m) / zero x covariance none / 3x3 (rank-1, "
                 "full, diagonal) / 3x1; each transformed by the pipeline and by the driver's own stepwise calls, then transformed back; "
                 "distinct = distinct (direction, height class, covariance class, grid point); the repository tests transform 2 points")
-    ctx.assumptions += ["covariance clauses: equals the stepwise composition vcv_local2cart -> conform7 -> vcv_cart2local bit for bit; symmetric and "
+    ctx.assumptions += ["covariance clauses: equals the stepwise composition vcv_local2cart -> conform7 -> vcv_cart2local (1e-9 of the trace); symmetric and "
                         "PSD by principal minors; VALUE equal (1e-9 of the trace) to the rotation / J Q J^T / rotation evaluated in the "
                         "specification with the published GDA94<->GDA2020 parameter uncertainties",
                         "round trip compared in the grid when the zone is unchanged, otherwise in geographic coordinates with lower-bound "
@@ -206,7 +210,7 @@ def selftest(good):
     base = next((t for t in good if t["vcv"] == "m33" and len(t["ev"]) == 7), None)
     if base is None:
         return {"ran": False}
-    t1 = copy.deepcopy(base); t1["ev"][5]["rethex"] += "0"
+    t1 = copy.deepcopy(base); t1["ev"][5]["ret"]["e"] = E_(float(fix.dec(t1["ev"][5]["ret"]["e"])) + 0.0003)
     t2 = copy.deepcopy(base); t2["ev"][2]["inhex"] = t2["ev"][2]["inhex"].replace("0x1.", "0x1.1", 1)
     t3 = copy.deepcopy(base)
     t3["ev"][6]["e2"] = fix.enc(fix.dec(t3["ev"][6]["e2"]) + __import__("fractions").Fraction(2, 10 ** 3))
